@@ -18,7 +18,7 @@ import (
 
 func c08Counts(tier string) (cases, per int) {
 	if tier == "thorough" {
-		return 1500, 40
+		return 8000, 40
 	}
 	return 200, 16
 }
@@ -235,6 +235,22 @@ func c08Case(c *Ctx) {
 				wl, err := spg.NewWordList(w.Words)
 				if err != nil {
 					break
+				}
+				if order == 1 {
+					// an excursion of the retry knobs during which every separator recipe is refused, then the
+					// defaults again: nothing may be remembered (the presets are shared package-level values)
+					func() {
+						defer knobs(0, 1e-9)()
+						for _, v := range vs {
+							if v.sf != nil {
+								rec := spg.NewWLRecipe(v.L, wl)
+								rec.SeparatorFunc = v.sf
+								rec.Entropy()
+								runGen(rec, nil)
+							}
+						}
+						c.Count("knob_excursions", 1)
+					}()
 				}
 				idx := c.R.Perm(len(vs))
 				for _, vi := range idx {
